@@ -342,7 +342,7 @@ def check(ck):
 
     # ---- C13.8 nothing escapes into the request-less fault of do_POST (shared with C02.1) ----------------------------------
     from rules import c02 as _c02e, common as _cme
-    _cme.import_rules(ck, _c02e, {"C02.1": "C13.8"})
+    _cme.import_rules(ck, _c02e, {"C02.1": "C13.8", "C02.6": "C13.8"})  # (C02.6: the serialisation cannot fail into the fallback, which answers in the server's form)
     ck.floor("C13.8", 10)
 
     # ---- C13.4 (continued) what the single dispatch hands back is already a finished reply ------------------------------------
